@@ -440,7 +440,17 @@ class HistoryRun:
             with open(moved, "w") as f:
                 f.write(text.replace('file: "', 'file: "elsewhere/'))
             bp_path = moved
-        argv = ["setarch", "x86_64", "-R", self.w.pavexc, "generate", "-b", bp_path, "-o",
+        binary = self.w.pavexc
+        par_trace = None
+        if step.get("par_seed") is not None:
+            # arm `par`: the verification build, its parallel sections under the seeded scheduler
+            binary = getattr(self.w, "pavexc_verif", None)
+            if not binary:
+                raise HarnessError("a `par` step needs the --cfg pavex_verif build of pavexc")
+            par_trace = os.path.join(self.slot.dir, f"par-{self.seq}.txt")
+            if os.path.exists(par_trace):
+                os.unlink(par_trace)
+        argv = ["setarch", "x86_64", "-R", binary, "generate", "-b", bp_path, "-o",
                 step.get("out", lay["out"]).replace("$WS", ws)]
         if step.get("diag"):
             argv += ["--diagnostics", lay["real"](step["diag"])]
@@ -462,6 +472,9 @@ class HistoryRun:
             "VERIF_HASH_SEED": str(step["hash_seed"]),
             "VERIF_TRACE": trace,
         }
+        if par_trace:
+            env["VERIF_PAR_SEED"] = str(step["par_seed"])
+            env["VERIF_PAR_TRACE"] = par_trace
         fault = step.get("fault")
         if fault:
             spec = f"{fault['kind']}@{fault['k']}"
@@ -528,6 +541,11 @@ class HistoryRun:
         ops, fired = parse_trace(trace, self.slot, proj, lay["subs"])
         stderr = strip_ansi(open(err_p, "rb").read().decode(errors="replace"))
         stdout = strip_ansi(open(out_p, "rb").read().decode(errors="replace"))
+        par_lines = []
+        if par_trace and os.path.exists(par_trace):
+            with open(par_trace) as f:
+                par_lines = f.read().splitlines()
+            os.unlink(par_trace)
         for f in (trace, out_p, err_p):
             try:
                 os.unlink(f)
@@ -582,6 +600,12 @@ class HistoryRun:
             "post_fault": self.post_fault,
             "golden_run": bool(self.h.get("golden")),
         }
+        if par_trace:
+            rec["par_seed"] = step["par_seed"]
+            rec["par_trace_hash"] = sha256_bytes("\n".join(par_lines).encode())[:16]
+            rec["par_decisions"] = sum(1 for l in par_lines if " decision " in l)
+            rec["par_sections"] = [int(l.split(":")[1].split()[0]) for l in par_lines if l.startswith("section ") and " tasks" in l and " decision " not in l]
+            rec["par_trace"] = par_lines[:80]
         if fault:
             phase = fault["phase"]
             rec["count_matching"] = sum(1 for o in ops if o[0] in WRITE_CLASS and
